@@ -2,6 +2,51 @@
 #![allow(dead_code, unused_imports, static_mut_refs)]
 use super::*;
 use crate::btree::LastKey;
+use crate::verif_common as vc;
+
+pub fn opts(n: usize) -> Options {
+	Options {
+		path: std::path::PathBuf::new(),
+		columns: (0..n).map(|_| ColumnOptions::default()).collect(),
+		sync_wal: true,
+		sync_data: true,
+		stats: false,
+		salt: None,
+		compression_threshold: Default::default(),
+	}
+}
+
+pub fn wc<S: Default>() -> WaitCondvar<S> { WaitCondvar { cv: Condvar::new(), work: Mutex::new(S::default()) } }
+
+pub fn mk_db(o: Options, ncols: usize, bg_err: bool) -> DbInner {
+	let mut overlays = Vec::new();
+	let mut c = 0;
+	while c < ncols { overlays.push(CommitOverlay::new()); c += 1; }
+	DbInner {
+		columns: Vec::new(),
+		options: o,
+		shutdown: AtomicBool::new(false),
+		log: crate::log::verif_kani::mk_log_plain(true),
+		commit_queue: Mutex::new(Default::default()),
+		commit_queue_full_cv: Condvar::new(),
+		log_worker_wait: wc(),
+		commit_worker_wait: Arc::new(wc()),
+		commit_overlay: RwLock::new(overlays),
+		trees: RwLock::new(Default::default()),
+		log_queue_wait: wc(),
+		flush_worker_wait: Arc::new(wc()),
+		cleanup_worker_wait: wc(),
+		cleanup_queue_wait: wc(),
+		iteration_lock: Mutex::new(()),
+		last_enacted: AtomicU64::new(0),
+		next_reindex: AtomicU64::new(1),
+		bg_err: Mutex::new(if bg_err { Some(Arc::new(Error::Corruption(String::new()))) } else { None }),
+		db_version: crate::options::CURRENT_VERSION,
+		lock_file: vc::raw_file(9),
+	}
+}
+
+
 
 /// C04.B4: over an overlay holding up to 3 one-byte keys (symbolic, distinct), for every LastKey variant:
 /// Seeked(k) -> smallest key >= k (next) / largest key <= k (prev); At(k) -> strictly greater / smaller;
@@ -52,3 +97,117 @@ fn c04_b4_overlay_cursor() {
 	while c <= 3 { if c == n { cursor_case(c); } c += 1; }
 }
 }
+
+
+// =====================================================================================
+// C13.P3: DbInner::enact_logs(validation_mode = true) on arbitrary log bytes (database without columns:
+// every table action is invalid, so the only acceptable records are Begin, Drop*, End)
+// =====================================================================================
+crate::verif_env! {
+#[kani::proof]
+#[kani::unwind(40)]
+#[kani::stub(<std::fs::File as std::io::Read>::read, crate::log::verif_kani::stub_file_read)]
+#[kani::stub(<std::fs::File as std::io::Seek>::seek, crate::log::verif_kani::stub_file_seek_back)]
+#[kani::stub(crc32fast::Hasher::internal_new_specialized, crate::verif_common::no_specialized_crc)]
+#[kani::stub(<std::os::fd::OwnedFd as std::ops::Drop>::drop, crate::verif_common::fd_drop_noop)]
+fn c13_p3_enact_logs_validation_gate() {
+	let n = crate::log::verif_kani::log_set_any(20);
+	let db = mk_db(opts(0), 0, false);
+	let last: u64 = kani::any();
+	kani::assume(last < u64::MAX - 1);
+	db.last_enacted.store(last, Ordering::Relaxed);
+	crate::log::verif_kani::log_attach_reader(&db.log, 3);
+	crate::log::verif_kani::log_queue_replay(&db.log, 4, 77);
+	let r = db.enact_logs(true);
+	let b = crate::log::verif_kani::log_bytes();
+	match &r {
+		Ok(true) => {
+			let rid = u64::from_le_bytes([b[1], b[2], b[3], b[4], b[5], b[6], b[7], b[8]]);
+			assert!(b[0] == 1, "C13.P3 an applied record starts with BeginRecord");
+			assert!(rid == last + 1, "C13.P3 only the record numbered last_enacted + 1 is applied");
+			assert!(db.last_enacted.load(Ordering::Relaxed) == rid, "C13.P3 last_enacted advances to the applied record");
+			assert!(n >= 14, "C13.P3 an applied record is complete");
+			// no column exists: the record can only consist of Begin, Drop actions, End with matching checksum
+			assert!(b[9] == 4 || b[9] == 5 || b[9] == 7, "C13.P3 table actions of missing columns are never applied");
+		},
+		Ok(false) => {
+			assert!(db.last_enacted.load(Ordering::Relaxed) == last, "C13.P3 a rejected record leaves last_enacted unchanged");
+			let rid = u64::from_le_bytes([b[1], b[2], b[3], b[4], b[5], b[6], b[7], b[8]]);
+			if n >= 9 && b[0] == 1 && rid != last + 1 {
+				assert!(crate::log::verif_kani::log_replay_len(&db.log) == 0, "C13.P3 an out-of-sequence record discards all remaining logs");
+			}
+		},
+		Err(_) => {
+			assert!(db.last_enacted.load(Ordering::Relaxed) == last, "C13.P3 an error leaves last_enacted unchanged");
+		},
+	}
+	kani::cover!(matches!(r, Ok(true)));
+	kani::cover!(matches!(r, Ok(false)) && n >= 14 && b[0] == 1);
+	std::mem::forget(r);
+	std::mem::forget(db);
+}
+}
+
+
+// =====================================================================================
+// C12.O3b: DbInner::clean_logs — every truncated log file was waiting for cleanup BEFORE the table flush began and
+// every table of every column was flushed before the first truncation; a log that finishes enacting while the
+// flush is in progress (environment nondeterminism) is never truncated by this round.
+// =====================================================================================
+fn clean_logs_db_case(nq: usize, race: bool) {
+	let vl = crate::log::verif_kani::fev_reset;
+	vl();
+	let mut o = opts(1);
+	o.sync_data = kani::any();
+	let sync_data = o.sync_data;
+	let mut db = mk_db(o, 1, false);
+	db.columns.push(crate::column::verif_kani::mini_plain_column(false));
+	if nq >= 1 { crate::log::verif_kani::log_push_cleanup(&db.log, 1, 11); }
+	if nq >= 2 { crate::log::verif_kani::log_push_cleanup(&db.log, 2, 12); }
+	unsafe { crate::log::verif_kani::RACE_ON = race; crate::log::verif_kani::RACE_DONE = false; }
+	crate::log::verif_kani::set_log_ptr(&db.log);
+	let r = db.clean_logs();
+	crate::log::verif_kani::clear_log_ptr();
+	let n = unsafe { crate::log::verif_kani::FEV_N };
+	let mut flushed = [false; 3];
+	let mut i = 0;
+	let mut truncated = 0;
+	while i < crate::log::verif_kani::FE_MAX {
+		if i < n {
+			let (k, fd) = unsafe { crate::log::verif_kani::FEV[i] };
+			if k == 8 { assert!(truncated == 0, "C12.O3 no table flush after a truncation started"); flushed[fd as usize] = true; }
+			if k == 3 {
+				truncated += 1;
+				assert!(fd == 11 || fd == 12, "C12.O3 only logs that waited for cleanup before the flush are truncated");
+				assert!(flushed[0] && flushed[1] && flushed[2], "C12.O3 every table was flushed before a log is truncated");
+			}
+		}
+		i += 1;
+	}
+	if r.is_ok() {
+		if sync_data { assert!(truncated == nq, "C12.O3 all logs that waited for cleanup are cleaned"); }
+		else { assert!(truncated == 0, "C12.O3 without sync_data up to KEEP_LOGS logs are kept"); }
+		let raced = race && sync_data && nq > 0;
+		assert!(crate::log::verif_kani::log_cleanup_has(&db.log, 3) == raced, "C12.O3 a log that became dirty during the flush waits for the next round");
+	}
+	kani::cover!(truncated == nq && nq > 0);
+	std::mem::forget(r);
+	std::mem::forget(db);
+}
+
+macro_rules! c12_o3b {
+	($name:ident, $nq:expr, $race:expr) => {
+		crate::verif_tbl! {
+			#[kani::proof]
+			#[kani::unwind(26)]
+			#[kani::stub(<std::fs::File as std::io::Seek>::seek, crate::log::verif_kani::stub_file_seek)]
+			#[kani::stub(std::fs::File::set_len, crate::log::verif_kani::stub_set_len)]
+			#[kani::stub(std::fs::File::sync_all, crate::log::verif_kani::stub_sync_all)]
+			#[kani::stub(<std::os::fd::OwnedFd as std::ops::Drop>::drop, crate::verif_common::fd_drop_noop)]
+			fn $name() { clean_logs_db_case($nq, $race) }
+		}
+	};
+}
+c12_o3b!(c12_o3b_db_clean_logs_q1, 1, false);
+c12_o3b!(c12_o3b_db_clean_logs_q2_race, 2, true);
+c12_o3b!(c12_o3b_db_clean_logs_q1_race, 1, true);
